@@ -207,6 +207,8 @@ pub enum SAct {
     Ping { ts: u32 },
     /// n ping requests (timestamps ts, ts+1, ...) delivered in ONE input call
     PingBurst { ts: u32, n: u8 },
+    /// a ping request sent on a message stream other than 0 (user control messages SHOULD use stream 0; they need not)
+    PingOnStream { msid: u32, ts: u32 },
     UnknownCommand,
     /// arbitrary message: (msid, type id, body)
     Raw { msid: u32, type_id: u8, body: Vec<u8> },
@@ -299,6 +301,7 @@ impl ServerH {
                 _ => wire(ser, *sid, 0, &M::Data(vec![])),
             },
             SAct::Ping { ts } => wire(ser, 0, 0, &r2::user_control(6, *ts, 0)),
+            SAct::PingOnStream { msid, ts } => wire(ser, *msid, 0, &r2::user_control(6, *ts, 0)),
             SAct::PingBurst { ts, n } => {
                 let mut all = Vec::new();
                 for k in 0..*n {
@@ -450,6 +453,8 @@ pub enum CAct {
     Ping { ts: u32 },
     /// n ping requests (timestamps ts, ts+1, ...) delivered in ONE input call
     PingBurst { ts: u32, n: u8 },
+    /// a ping request sent on a message stream other than 0 (user control messages SHOULD use stream 0; they need not)
+    PingOnStream { msid: u32, ts: u32 },
     Ack { n: u32 },
     UnknownCommand,
     Raw { msid: u32, type_id: u8, body: Vec<u8> },
@@ -497,7 +502,16 @@ impl ClientH {
                 wire(ser, 0, 0, &command("_result", *tx, V::Null, args))
             }
             CAct::ResultMalformedStream { tx } => wire(ser, 0, 0, &command("_result", *tx, V::Null, vec![s("five")])),
-            CAct::Error { tx } => wire(ser, 0, 0, &command("_error", *tx, V::Null, vec![obj(vec![("description", s("no"))])])),
+            CAct::Error { tx } => {
+                // the information object varies with the transaction: level + code only (the description is optional),
+                // no information object at all, or a description
+                let args = match (*tx as u64) % 3 {
+                    1 => vec![obj(vec![("level", s("error")), ("code", s("NetConnection.Connect.Rejected"))])],
+                    2 => vec![],
+                    _ => vec![obj(vec![("description", s("no"))])],
+                };
+                wire(ser, 0, 0, &command("_error", *tx, V::Null, args))
+            }
             CAct::OnStatus { code } => wire(ser, 1, 0, &command("onStatus", 0.0, V::Null, vec![obj(vec![("level", s("status")), ("code", s(code))])])),
             CAct::OnStatusMalformed { shape } => match shape {
                 0 => wire(ser, 1, 0, &command("onStatus", 0.0, V::Null, vec![])),
@@ -513,6 +527,7 @@ impl ClientH {
                 _ => wire(ser, *msid, 0, &M::Data(vec![])),
             },
             CAct::Ping { ts } => wire(ser, 0, 0, &r2::user_control(6, *ts, 0)),
+            CAct::PingOnStream { msid, ts } => wire(ser, *msid, 0, &r2::user_control(6, *ts, 0)),
             CAct::PingBurst { ts, n } => {
                 let mut all = Vec::new();
                 for k in 0..*n {
